@@ -3,6 +3,7 @@ use crate::engine::PropFn;
 pub mod c01;
 pub mod c02;
 pub mod c03;
+pub mod c04;
 pub mod c14;
 pub mod c15;
 pub mod c17;
@@ -14,6 +15,7 @@ pub fn lookup(id: &str) -> Option<PropFn> {
         "C01" => c01::run,
         "C02" => c02::run,
         "C03" => c03::run,
+        "C04" => c04::run,
         "C14" => c14::run,
         "C15" => c15::run,
         "C17" => c17::run,
